@@ -17,6 +17,14 @@ def parseBody (b : String) : Srv.Body :=
   else if b.startsWith "s:" then .str (cpsNat (b.drop 2).toString)
   else .bytes (unhexS (b.drop 2).toString)
 
+def faultOfName (s : String) : Option Srv.Fault :=
+  [("refused", Srv.Fault.refused), ("tlsFailure", .tlsFailure), ("closedBeforeHeader", .closedBeforeHeader),
+   ("closedMidHeader", .closedMidHeader), ("reset", .reset), ("stallConnect", .stallConnect), ("stallHeader", .stallHeader),
+   ("stallBody", .stallBody), ("garbageHeader", .garbageHeader), ("statusSpelling", .statusSpelling),
+   ("missingSeparator", .missingSeparator), ("metaControl", .metaControl), ("headerTooLong", .headerTooLong),
+   ("statusOutOfRange", .statusOutOfRange), ("headerNotUtf8", .headerNotUtf8), ("bodyTooLarge", .bodyTooLarge),
+   ("badUpstreamUrl", .badUpstreamUrl)].lookup s
+
 def showRender (r : Srv.Resp) : String :=
   let hb := Srv.render r
   s!"ok {toHex hb.1} {toHex hb.2}"
@@ -62,7 +70,7 @@ def proxyCase (line : Str) (env1 env2 : Env) (locs : List Loc) : String :=
     `route <path> <r;r;…|->`   r ::= `e:<pattern>` | `p:<pattern>`        → `ok <index>` | `ok default`
     `pcase <line> <ip1> <nf1> <ip2> <nf2> <loc;loc;…|->`  loc ::= `s:<prefix>` | `x:<prefix>:<strip>:<upstream>`
          → `ok rejected` | `ok default` | `ok <i> static` | `ok <i> <url> invalid` | `ok <i> <url> <host> <port> <request line>`
-    `relay resp <status> <meta> <n | b:hex | s:cps>` | `relay fail <t|c|o> <msg>` → `ok <header-hex> <body-hex>` -/
+    `relay resp <status> <meta> <n | b:hex | s:cps>` | `relay fail <t|c|o> <msg>` | `relay fault <kind> <msg>` → `ok <header-hex> <body-hex>` -/
 def handle : List String → Option String
   | ["proxy", up, pre, strip, path, query] =>
     if strip == "0" || strip == "1" then
@@ -77,6 +85,10 @@ def handle : List String → Option String
       | none => some "ok default"
   | ["relay", "resp", st, m, b] =>
     some (showRender (Srv.proxyRespond (.resp ⟨parseInt st, cpsNat m, parseBody b⟩)))
+  | ["relay", "fault", kind, msg] =>
+    match faultOfName kind with
+    | some f => some (showRender (Srv.proxyRespond (.fail f.cls (cpsNat msg))))
+    | none => some "bad-op"
   | ["relay", "fail", k, msg] =>
     match (if k == "t" then some Srv.FailClass.timeout else if k == "c" then some .connection else if k == "o" then some .other else none) with
     | some cls => some (showRender (Srv.proxyRespond (.fail cls (cpsNat msg))))
